@@ -10,7 +10,8 @@ LEVEL_TEXT = ("ConfValidate.tla states the constraints named by the statement ov
               "during hot reload); TLC evaluates the statement (no crash, no panic, error or all constraints) on every recorded outcome")
 LEVEL_NOTE = ("partial: structured shape classes and constraint classes only, no raw-byte fuzzing of the YAML decoder; nesting "
               "depth <= 10001 (the decoder is quadratic in depth); 'positive timeouts' is read as readTimeout/writeTimeout, other "
-              "timeouts are reported as drift only; the statement's '...' is left open")
+              "timeouts are reported as drift only; the statement's '...' is left open; variables that extend a parameter name and "
+              "silently reset it are drift (suffixChangedConf), not a verdict")
 TECHNIQUE = "TLC exhaustive check + case generation, replay on the real code in child processes, TLC trace validation"
 
 PKG = "./internal/conf/"
